@@ -456,3 +456,6 @@ def parts(tier):
         HypPart('arbitrary-bytes', arbitrary_cases(max_len=big), check_arbitrary, 4000, 120000),
         EnumPart('atheris-campaign', run_fuzz, check_bytes),
     ]
+
+
+RULE += '  Added after the seeding rounds: LIS files with > 100 even-length physical records before the first odd one, padded physical records (multiples of 2 / 4; minimum record lengths for TIF files), the same bytes through binary_file_type_from_path under neutral / misleading names, digit-run damage of numeric header fields, labels with mixed zero / blank padding, BIT head bytes with foreign magic values.'
